@@ -250,6 +250,8 @@ def observe(case):
         cand.add('.'.join(parts[:-1]))
         cand.add('a.' + k)
         cand.add(parts[-1])
+        cand.add(' ' + k)               # a registered name with white space around it is another name
+        cand.add(k + '\n')
     for n in FNAMES + [m[0] for m in MEMBERS] + ['v._hid', 'a.v.attr', 'nosuch', 'x']:
         cand.add(n)
     cand.discard('')
